@@ -100,7 +100,7 @@ func swRun(script []string) (res swResult) {
 	S, _ := strconv.Atoi(f[1])
 	sectors, _ := strconv.Atoi(f[2])
 	resume, _ := strconv.Atoi(f[3])
-	dev := hx.NewMemDevice(2 * S * sectors)
+	dev := hx.NewMemDevice(3 * S * sectors) // the block under test is the middle one; the third is never handed out
 	alloc := local.NewBlockDeviceBackedBlockAllocator(dev, blobstore.CASReadBufferFactory, S, int64(sectors), 2, "sw")
 	b0, _, err := alloc.NewBlock()
 	if err != nil {
@@ -134,6 +134,27 @@ func swRun(script []string) (res swResult) {
 		}
 	}
 	image := func() string { return hx.Hex(dev.Data[base : base+top]) }
+	logged := 0
+	// report = device image of the block plus the WriteAt calls since the last report (first sector:sector count)
+	report := func() string {
+		var ws []string
+		for _, wr := range dev.Pending[logged:] {
+			rel := int(wr.Off) - base
+			if rel < 0 || rel%S != 0 || len(wr.Data)%S != 0 || len(wr.Data) == 0 {
+				fail("a device write of the block writer is not a run of whole sectors of its block", fmt.Sprintf("WriteAt(%d bytes, %d), block base %d, sector %d", len(wr.Data), wr.Off, base, S))
+				continue
+			}
+			ws = append(ws, fmt.Sprintf("%d:%d", rel/S, len(wr.Data)/S))
+			if int(wr.Off)+len(wr.Data) > int(loc.OffsetBytes)+S*sectors {
+				fail("a device write of the block writer reaches beyond its block", fmt.Sprintf("WriteAt(%d bytes, %d), block [%d,%d)", len(wr.Data), wr.Off, loc.OffsetBytes, int(loc.OffsetBytes)+S*sectors))
+			}
+		}
+		logged = len(dev.Pending)
+		if len(ws) == 0 {
+			return image() + " w=-"
+		}
+		return image() + " w=" + strings.Join(ws, ",")
+	}
 	check := func() {
 		for i := range dev.Data {
 			if (i < base || i >= base+top) && dev.Data[i] != 0 {
@@ -170,7 +191,10 @@ func swRun(script []string) (res swResult) {
 					continue
 				}
 			}
-			if !block.HasSpace(int64(len(data))) {
+			space := block.HasSpace(int64(len(data)))
+			res.lines = append(res.lines, fmt.Sprintf("sw-space %d %d", sectors-(base-int(loc.OffsetBytes))/S, len(data)))
+			res.impl = append(res.impl, strconv.FormatBool(space))
+			if !space {
 				continue
 			}
 			u := &swUpload{data: data, bad: len(w) > 2 && w[2] == "bad", start: top, instr: make(chan swInstr), ev: make(chan string, 1)}
@@ -189,6 +213,10 @@ func swRun(script []string) (res swResult) {
 			res.impl = append(res.impl, fmt.Sprintf("%d %d", len(ups), top))
 			top += len(data)
 			ups = append(ups, u)
+			if base+top > int(loc.OffsetBytes)+S*sectors {
+				fail("HasSpace admitted an object that does not fit into the block", fmt.Sprintf("block of %d bytes at %d, objects now end at %d", S*sectors, loc.OffsetBytes, base+top))
+				return
+			}
 			go func() {
 				u.fin = pw(buffer.NewCASBufferFromChunkReader(d, &swReader{u: u}, buffer.UserProvided))
 				u.ev <- "done"
@@ -216,7 +244,7 @@ func swRun(script []string) (res swResult) {
 				u.withheld = chunk
 			} else {
 				res.lines = append(res.lines, fmt.Sprintf("sw-write %d %s", i, hx.Hex(chunk)))
-				res.impl = append(res.impl, image())
+				res.impl = append(res.impl, report())
 			}
 			if u.done {
 				finish(i, u)
@@ -251,7 +279,7 @@ func swRun(script []string) (res swResult) {
 				} else {
 					res.lines = append(res.lines, fmt.Sprintf("sw-flush %d", i))
 				}
-				res.impl = append(res.impl, image())
+				res.impl = append(res.impl, report())
 				if u.start%S != 0 || (u.start+len(u.data))%S != 0 {
 					res.shared++
 				}
